@@ -273,6 +273,59 @@ func runC05(c *Ctx) {
 	}
 	c.Floor("C05-R2", "per-scope wipes in lock()", nPerScope, 3)
 	checkZeroMethodsWipeInPlace(c, "C05-R2")
+	// every place the managers keep address OBJECTS (which carry clear-text keys once unlocked) is visited by lock():
+	// the address cache, but also the per-account "last address" objects, which loadAccountInfo rebuilds from the
+	// private account key and which are not part of the address cache
+	{
+		isAddrHolder := func(t types.Type) bool {
+			s := t.String()
+			return strings.HasSuffix(s, "waddrmgr.ManagedAddress") || strings.HasSuffix(s, "waddrmgr.managedAddress")
+		}
+		var fields [][2]string
+		for _, tn := range []string{"ScopedKeyManager", "accountInfo"} {
+			nt := p.Named("waddrmgr", tn)
+			if nt == nil {
+				continue
+			}
+			st, ok := nt.Underlying().(*types.Struct)
+			if !ok {
+				continue
+			}
+			for i := 0; i < st.NumFields(); i++ {
+				ft := st.Field(i).Type()
+				hold := isAddrHolder(ft)
+				if m, ok := ft.Underlying().(*types.Map); ok && isAddrHolder(m.Elem()) {
+					hold = true
+				}
+				if sl, ok := ft.Underlying().(*types.Slice); ok && isAddrHolder(sl.Elem()) {
+					hold = true
+				}
+				if hold {
+					fields = append(fields, [2]string{tn, st.Field(i).Name()})
+				}
+			}
+		}
+		c.Floor("C05-R2", "fields that hold managed address objects", len(fields), 3)
+		// calls that wipe an address object, reachable in lock(): (*managedAddress).lock / (*scriptAddress).lock
+		for _, fl := range fields {
+			visited := false
+			for _, f := range Closures(lock) {
+				for _, ci := range callsOf(f) {
+					call, ok := ci.(*ssa.Call)
+					if !ok || calleeShort(&call.Call) != "lock" || len(call.Call.Args) == 0 {
+						continue
+					}
+					for _, o := range (&Slicer{P: p, ThroughRange: true, ThroughFieldsOfAllocs: true}).Origins(call.Call.Args[0]) {
+						if tn, fld, _, okf := fieldOf(o); okf && tn == fl[0] && fld == fl[1] {
+							visited = true
+						}
+					}
+				}
+			}
+			c.Check("C05-R2", "lock-visits-address-objects-in:"+fl[0]+"."+fl[1], lock.Pos(), visited,
+				"Manager.lock() does not wipe the address objects kept in "+fl[0]+"."+fl[1]+": their clear-text private keys survive Lock in memory")
+		}
+	}
 	for _, tn := range []string{"managedAddress", "scriptAddress"} {
 		found := false
 		for _, b := range lock.Blocks {
